@@ -69,6 +69,9 @@ def gen_cases(rng, g, per_graph=18, setups=None):
         out += [["", "", False, False, False, [], False, "untag:" + t] for t in tags + ["beta"]]
         out += [[p["name"], p["version"], False, False, f, [], False, "tag:" + t] for p in g["products"] for f in (False, True)
                 for t in p.get("tags", []) + ["beta"]]
+        if g.get("_interactive"):
+            out += [[p["name"], p["version"], r, c, False, [], False, "ask:" + sc] for p in g["products"] for r in (False, True)
+                    for c in (False, True) for sc in ("q", "nnnnq", "!q", "ynq", "nyq", "eq", "neq", "xyxnq", "yn!q")]
         return sorted(out, key=repr)
     rng.shuffle(allc)
     out = allc[:per_graph]
@@ -93,6 +96,20 @@ def gen_cases(rng, g, per_graph=18, setups=None):
             # versions written in table files, which is outside the resolution rule modelled here (C03's subject).
             mine = [p.get("tags", []) for p in g["products"] if p["name"] == c[0] and p["version"] == c[1]][0]
             c[7] = "tag:" + (rng.choice(mine) if (mine and rng.random() < 0.8) else rng.choice(["current", "beta"]))
+    for c in out:
+        if c[7] == "version" and rng.random() < 0.15:
+            # `eups remove -i`: what is typed at the prompts, one letter per line (e = empty line, x = something else);
+            # always ends with q, so the answers never run out
+            style = rng.random()
+            if style < 0.15:
+                script = "q"
+            elif style < 0.35:
+                script = rng.choice(["n", "ne", "nx"]) * 8
+            elif style < 0.5:
+                script = rng.choice(["!", "y!", "n!", "x!"])
+            else:
+                script = "".join(rng.choice("yyynnnex") for _ in range(rng.randint(2, 9))) + rng.choice(["", "", "!"])
+            c[7] = "ask:" + script + "q"
     if rng.random() < 0.5:
         out.append(["", "", False, False, False, [], False, "untag:" + rng.choice(["current", "beta", "beta"])])
     return sorted(out, key=repr)
@@ -114,7 +131,17 @@ def run_impl(job):
             L.readonly_database(s)
         before, dbb, otherb = L.snapshot(s), L.db_listing(s), L.db_listing(s, others=True)
         flags = (["-R"] if rec else []) + ([] if check else ["-N"]) + (["-F"] if force else [])
-        if how == "version":
+        if how.startswith("ask:"):
+            import builtins
+            typed = [{"e": "", "x": "maybe", "!": "!"}.get(ch, ch) for ch in how[4:]]
+
+            def fake_input(prompt=""):
+                if not typed:
+                    raise EOFError
+                return typed.pop(0)
+            builtins.input = fake_input
+            args = ["remove", "-i"] + flags + [name, version]
+        elif how == "version":
             args = ["remove"] + flags + [name, version]
         elif how.startswith("tag:"):
             args = ["remove"] + flags + ["-t", how[4:], name]
@@ -128,6 +155,8 @@ def run_impl(job):
             outcome = "NoSuchTag"
         else:
             outcome = r["error"] or "rc=%s" % r["rc"]
+        if outcome == "Other(EOFError)":
+            outcome = "EOF"
         return {"out": outcome, "before": before, "after": after, "dbb": dbb, "dba": dba, "otherb": otherb, "othera": othera}
     finally:
         common.rmtree(root)
@@ -405,7 +434,17 @@ def oracle(R, graph, case, io_, closures):
     gone = decl_b - decl_a
     if decl_a - decl_b:
         yield ("exact", None, "new declarations %s" % sorted(decl_a - decl_b))
-    if not rec:
+    ask = how[4:] if how.startswith("ask:") else None
+    if ask is not None:
+        # -i: at most what the command would remove without it; nothing when every answer is no, or the first is q
+        eff = ask.replace("x", "")
+        upper = ({(name, version)} | reach) if rec else {(name, version)}
+        if not gone <= upper and not unsetup_any:
+            yield ("exact", None, "undeclared %s, at most %s could be asked about" % (sorted(gone), sorted(upper)))
+        body = eff[:-1]
+        if gone and (eff.startswith("q") or (body[:1] == "n" and set(body) <= {"n", "e"})):
+            yield ("interactive_no_means_no", None, "answers %r, but %s were removed" % (ask, sorted(gone)))
+    elif not rec:
         if gone != {(name, version)}:
             yield ("exact", None, "undeclared %s, asked for %s" % (sorted(gone), (name, version)))
     else:
@@ -441,7 +480,8 @@ def oracle(R, graph, case, io_, closures):
     if new:
         yield ("frame", None, "new files %s" % new[:3])
     # safety: with the check on and force off, no survivor needs a removed product
-    if check and not force and not unsetup_any:
+    if check and not force and not unsetup_any and (ask is None or (name, version) in gone):
+        # (with -i the user may keep the requested product and say yes to one of its dependencies: his explicit choice)
         for key in decl_a:
             l2, _ = closures((key[0], key[1], True))
             bad = [(t[0], t[1]) for t in l2 if (t[0], t[1]) in gone]
@@ -462,6 +502,7 @@ def evaluate(ctx, graphs, per_graph=18, all_cases=False):
     for g in graphs:
         if all_cases:
             cases = gen_cases(ctx.rng, g, setups=g.pop("_setups", [([], False)]))
+            g.pop("_interactive", None)
         else:
             cases = gen_cases(ctx.rng, g, per_graph)
         jobs.append((g, cases))
@@ -493,6 +534,11 @@ def evaluate(ctx, graphs, per_graph=18, all_cases=False):
             ctx.case(key=[g["products"], case], nontrivial=nontriv,
                      sample={"input": inp, "impl": ci} if ctx.evaluations % 1009 == 0 else None)
             ctx.hist("%s%s%s:%s" % ("R" if case[2] else "-", "C" if case[3] else "-", "F" if case[4] else "-", io_["out"]))
+            if case[7].startswith("ask:"):
+                nb, na = len(io_["dbb"]["decl"]), len(io_["dba"]["decl"])
+                ctx.hist("interactive:%s:%s" % (io_["out"], "nothing removed" if na == nb else "%s removed" % ("one" if nb - na == 1 else "several")))
+                if io_["out"] == "ok" and na < nb and [case[0], case[1]] in io_["dba"]["decl"]:
+                    ctx.hist("interactive:requested_kept_dependency_removed")
             if case[5]:
                 ctx.hist("setup_in_env:%s" % io_["out"])
             if case[6]:
@@ -534,13 +580,15 @@ def corpus_items():
                 c["graph"]["shape"] = "corpus:" + f
                 if "history" in c:
                     c["graph"]["_history"] = c["history"]
+                if c.get("interactive"):
+                    c["graph"]["_interactive"] = True
                 c["graph"]["_setups"] = [(su, False) for su in c.get("setups", [[]])] + [([], True)] * bool(c.get("readonly"))
                 out.append(c["graph"])
     return out
 
 
 FLOORS = ("target:has_user", "target:has_dependency", "target:shares_dependency", "target:removed_with_second_flavor",
-          "target:removed_with_tag_of_other_flavor_only")
+          "target:removed_with_tag_of_other_flavor_only", "interactive:ok:nothing removed", "interactive:ok:one removed")
 
 
 def run(ctx):
